@@ -148,6 +148,18 @@ class Clean:
         sites = env._assign_sites.get(name, [])
         if not sites:
             return None, f'`{name}` has no local definition'
+        # a loop-carried local (`x = start; for ..: x = f(x)`): by induction over the iterations - while x is being judged, x
+        # itself counts as clean; its other definitions decide
+        busy = self.__dict__.setdefault('_busy_locals', set())
+        if (fn.fq, name) in busy:
+            return True, f'`{name}` (by induction)'
+        busy.add((fn.fq, name))
+        try:
+            return self._clean_local(fn, name, depth, env, sites)
+        finally:
+            busy.discard((fn.fq, name))
+
+    def _clean_local(self, fn: FuncInfo, name: str, depth: int, env, sites) -> Tuple[Optional[bool], str]:
         for s in sites:
             if s[0] == 'ann' and len(s) > 2 and s[2] is not None:
                 s = ('expr', s[2])          # `name: List[str] = <value>`
@@ -315,6 +327,10 @@ def check(ctx):
         takes_lines = any(isinstance(n, ast.Attribute) and n.attr in ('lines', '_lines') and isinstance(n.value, ast.Name) and
                           n.value.id == cparam for n in iter_own_nodes(app.node))
         ok_blk = takes_lines and not leaks
+        sem_lines = _lines_by_interpretation(ctx, tb)
+        if sem_lines is not None:
+            # decided by interpretation (C17.lines: blocks with and without a header appended, added, constructed from)
+            ok_blk, leaks = sem_lines, []
         run.add('C17.provenance', app.module.name, app.qualname, 'an appended block contributes its lines', ok_blk,
                 'a TextBlock handed to append() is taken by its lines; only other content is flattened' if ok_blk else
                 (f'`{ast.unparse(leaks[0])[:60]}` also receives a TextBlock `{cparam}` (no dominating `isinstance({cparam}, TextBlock)` '
@@ -571,6 +587,108 @@ def _str_rule(ctx, tb: ClassInfo):
                 'an empty block renders as the empty string' if guarded else 'an empty block renders as a lone EOL')
     if not saw_join:
         run.error('C17.str', m.module.name, m.qualname, '__str__', 'no join-based return found')
+
+
+def _lines_by_interpretation(ctx, tb: ClassInfo):
+    """C17.lines: TextBlock(v), block.append(v), block + v and block += v interpreted (E7) for v over None, '', text with and without
+    line breaks, numbers (0 and False among them), empty and non-empty lists / dicts, nested ones, and other text blocks:
+       lines(v) = the pieces of v depth-first, left to right, each split at its line breaks; None and empty containers give nothing,
+                  '' gives one blank line, a number its decimal text, a text block its own lines
+       TextBlock(v).lines == lines(v);  after b.append(v) / b += v:  b.lines == old lines + lines(v) (and b itself is handed back);
+       (b + v).lines == b.lines + lines(v) with b and v unchanged.
+    The code looks at the type and emptiness of what it is given; the universe has every type it distinguishes, empty and not."""
+    from ..scenario import Interp, Raised, Undecided, Obj
+    run, prog = ctx.run, ctx.prog
+    values = [None, '', 'a', 0, 7, False, 0.0, [], {}, ['a'], ['', 'b'], 'two\nlines', 'x\n', '\n', [None], [''], {'k': ''}, ['a', ['b', ''], None, 5],
+              ('tb', ()), ('tb', ('x', 'y')), ('tb', ('',)), ['a', ('tb', ('x',)), ''], ('tb', ('x', 'y'), ('HEAD',)), ('tb', (), ('HEAD',))]
+
+    def build(it, v):
+        if isinstance(v, tuple) and v and v[0] == 'tb':
+            return it.construct(tb, [list(v[1])], {} if len(v) < 3 else {'header': list(v[2])})
+        if isinstance(v, list):
+            return [build(it, x) for x in v]
+        if isinstance(v, dict):
+            return {k: build(it, x) for k, x in v.items()}
+        return v
+
+    def pieces(v, out):
+        if v is None:
+            return out
+        if isinstance(v, list):
+            for x in v:
+                pieces(x, out)
+        elif isinstance(v, dict):
+            for x in v.values():
+                pieces(x, out)
+        elif isinstance(v, tuple) and v and v[0] == 'tb':
+            text = ''.join(x + '\n' for x in (list(v[2]) if len(v) > 2 else []) + list(v[1]))     # (inside a list: its string form)
+            if text:
+                out.append(text)
+        elif isinstance(v, str):
+            out.append(v)
+        elif str(v):
+            out.append(str(v))
+        return out
+
+    def lines(v, top=True):
+        if top and isinstance(v, tuple) and v and v[0] == 'tb':
+            return list(v[1])
+        out = []
+        for s in pieces(v, []):
+            out.extend(s.splitlines() if s else [''])
+        return out
+    bad: List[str] = []
+    n = 0
+    m_append, m_add, m_iadd = (prog.lookup_method(tb, x) for x in ('append', '__add__', '__iadd__'))
+    if m_append is None:
+        return None
+    try:
+        for v in values:
+            want = lines(v)
+            # construction
+            it = Interp(prog)
+            n += 1
+            try:
+                b = it.construct(tb, [build(it, v)], {})
+                got = it.getattr(b, 'lines', m_append, 0)
+                if list(got) != want:
+                    bad.append(f'TextBlock({v!r}).lines is {list(got)!r}, expected {want!r}')
+            except Raised as exc:
+                bad.append(f'TextBlock({v!r}) raises {exc.name.split(".")[-1]}')
+            for base in (['first', '{'], []):
+                for label, meth in (('append', m_append), ('+', m_add), ('+=', m_iadd)):
+                    if meth is None:
+                        continue
+                    it = Interp(prog)
+                    n += 1
+                    b = it.construct(tb, [list(base)], {})
+                    arg = build(it, v)
+                    try:
+                        res = it.call_function(meth, [arg], {}, self_val=b)
+                    except Raised as exc:
+                        bad.append(f'TextBlock({base!r}) {label} {v!r} raises {exc.name.split(".")[-1]}')
+                        continue
+                    if not isinstance(res, Obj) or res.cls is not tb:
+                        raise Undecided(f'TextBlock.{meth.name} does not hand back a TextBlock')
+                    got = list(it.getattr(res, 'lines', m_append, 0))
+                    if got != base + want:
+                        bad.append(f'TextBlock({base!r}) {label} {v!r} has the lines {got!r}, expected {base + want!r}')
+                    if label == '+':
+                        if list(it.getattr(b, 'lines', m_append, 0)) != base:
+                            bad.append(f'TextBlock({base!r}) + {v!r} changes its left operand')
+                        if res is b:
+                            bad.append(f'TextBlock({base!r}) + {v!r} hands back the left operand itself')
+                    elif res is not b:
+                        bad.append(f'TextBlock.{meth.name} does not hand back the block itself')
+                    if isinstance(arg, Obj) and list(it.getattr(arg, 'lines', m_append, 0)) != list(v[1]):
+                        bad.append(f'TextBlock({base!r}) {label} a block changes that block')
+    except Undecided as exc:
+        run.remark(f'C17: TextBlock construction / append / + could not be interpreted ({exc})')
+        return None
+    run.add('C17.lines', tb.module.name, 'TextBlock.append', f'{n} constructions and extensions over {len(values)} kinds of content',
+            not bad, 'a text block holds exactly the lines of what was put into it, in order (construction, append, +, +=; \'\' is one blank line, 0 / False '
+            'are text, None and empty containers nothing)' if not bad else f'{len(bad)} of {n} disagree, e.g. ' + '; '.join(bad[:2]))
+    return not bad
 
 
 def _flatten_by_interpretation(ctx, f0: FuncInfo):
